@@ -566,6 +566,11 @@ def rule_state_predicates(ctx):
             rt = Inliner(ctx).ret_term(g)
             if rt is not None and any(x[0] == "call" and x[1].endswith("BlockStoreState::next") for x in subterms(rt)):
                 preds.append(g)
+        if not preds:
+            heads = [g for g in common.family(ctx, top, ("closure",)) if (lambda rt: rt is not None and any(x[0] == "call" and x[1].endswith("BlockStoreState::head") for x in subterms(rt)))(Inliner(ctx).ret_term(g))]
+            if heads:
+                ctx.ob(R, "%s predicate" % fname, False, "%s(n) compares n with %s.head() instead of n < %s.next(): head() of an EMPTY store is first-1, clamped to 0 at the origin, so block 0 (or `first`) counts as %s while nothing is stored - the waiter returns early" % (fname, what, what, what), heads[0].loc())
+                continue
         ctx.floor(R, "%s predicate" % fname, len(preds), 1)
         for g in preds:
             def m_next(a, b):
